@@ -36,6 +36,7 @@ EXHAUSTIVE = {"quick": "all 4 161 multigraphs with <= 3 nodes and <= 2 edges ove
                        "all cut-offs equal to and midway between the exact distances",
               "thorough": "all 104 643 multigraphs with <= 3 nodes and <= 3 edges over weights {0,1,2} x 3 orientations, all ordered "
                           "pairs, all cut-offs equal to and midway between the exact distances"}
+SOFT_MONITORS = ['pop_smallest.monotone_no_double_settle', 'pop_smallest.returns_minimum_present_key']      # contracts on private helpers: diagnostics, see vt/runner.py
 CASE_LIMIT_S = 20.0
 
 PAIR = "distance.pair_vs_floyd_warshall"
